@@ -1,5 +1,6 @@
 """C05: failures are contained, reported, never recorded as success."""
 import nxprops
+import rbchecks
 
 RULE = ("same exploration core as C01 with failing commands (each statement, pairs, exit codes, with/without overwritten "
         "outputs, -k1/-k2/-k0) under every schedule: nothing downstream of a failure starts, exit status is that of a failed "
@@ -7,6 +8,12 @@ RULE = ("same exploration core as C01 with failing commands (each statement, pai
         "recorded, independent work still started (vs fault-free baseline), and the failed command is retried by the next "
         "build while the fault persists")
 
+RB_RULE = ("; engine B: the unmodified ninja executable with a real command that is terminated by a signal of its own "
+           "(SIGKILL, SIGSEGV, SIGABRT, SIGPIPE; thorough: ten signals) or exits with 1/2/127/255 (thorough: twelve codes), "
+           "with and without having overwritten its output, -k1/-k0, run as 'sh -c \"exec cmd\"' (ninja's child itself is "
+           "killed: WIFSIGNALED), 'sh -c cmd' and 'sh -c \"cmd && true\"' (the shell reports 128+n): ninja exits non-zero, prints FAILED:, starts nothing "
+           "downstream, with -k0 still starts independent work, the next build retries the command, the one after is a no-op")
+
 
 def main(argv):
-    nxprops.run_check("C05", argv, ["C05"], RULE)
+    nxprops.run_check("C05", argv, ["C05"], RULE + RB_RULE, process_level=rbchecks.c05_process_level)
